@@ -8,7 +8,7 @@
 
    All arithmetic is NOT transcribed here: it is the text regenerated from the Python source on every run
    (PV.Gen.StatCounter: sc_merge, sc_mergeStats;  PV.Gen.Covariance: cc_add, cc_merge, sc_variance,
-   sc_sampleVariance, sc_sum, cc_covar_samp, cc_covar_pop, cc_pearson).  This file only packs the kernels'
+   sc_sampleVariance, sc_sum, cc_covar_samp, cc_covar_pop, cc_pearson, the initial field values sc_init_n etc. and cc_init_count etc.).  This file only packs the kernels'
    argument lists into records and adds the folds (per partition, over partitions, over arbitrary merge trees).
 
    Everything in the section is generic over the numeric operations [NumOps]: the PrimFloat instance is run
@@ -73,8 +73,9 @@ Record sc : Type := mkSC { sc_n : Z; sc_mu : F; sc_m2 : F; sc_max : F; sc_min : 
 Definition sc_of5 (t : Z * F * F * F * F) : sc :=
   let '(n, mu, m2, mx, mn) := t in mkSC n mu m2 mx mn.
 
-(* StatCounter.__init__ without values *)
-Definition sc_empty (ninf pinf : F) : sc := mkSC 0 (fofZ 0) (fofZ 0) ninf pinf.
+(* StatCounter.__init__ without values: the initial n, mu, m2 are regenerated constants (sc_init_n, sc_init_mu, sc_init_m2); the translator
+   checks that maxValue / minValue are float("-inf") / float("inf") *)
+Definition sc_empty (ninf pinf : F) : sc := mkSC sc_init_n sc_init_mu sc_init_m2 ninf pinf.
 
 (* StatCounter.merge(value) *)
 Definition sc_add (s : sc) (v : F) : sc :=
@@ -120,7 +121,8 @@ Record cc : Type := mkCC { cc_n : Z; cc_xavg : F; cc_yavg : F; cc_ck : F; cc_mkx
 Definition cc_of6 (t : Z * F * F * F * F * F) : cc :=
   let '(n, xa, ya, ck, mx, my) := t in mkCC n xa ya ck mx my.
 
-Definition cc_empty : cc := mkCC 0 (fofZ 0) (fofZ 0) (fofZ 0) (fofZ 0) (fofZ 0).
+(* CovarianceCounter.__init__ *)
+Definition cc_empty : cc := mkCC cc_init_count cc_init_xAvg cc_init_yAvg cc_init_Ck cc_init_MkX cc_init_MkY.
 
 (* CovarianceCounter.add(x, y) *)
 Definition cc_step (s : cc) (p : F * F) : cc :=
